@@ -37,9 +37,9 @@ m = {
     'setup_cmd': './check setup',
     'hooks': {
         'guard': 'MALTHE_CHAMELEON_VERIF',
-        'enable': 'MALTHE_CHAMELEON_VERIF=1 (set by ./check before chameleon is imported): chameleon.loader._verif_point(label, ...) calls the harness hook at labelled points of ModuleLoader.build, TemplateLoader.load, BaseTemplate.cook and BaseTemplateFile.cook_check; with the guard off _verif_point is an empty function',
+        'enable': 'MALTHE_CHAMELEON_VERIF=1 (set by ./check before chameleon is imported): chameleon.loader._verif_point(label, ...) calls the harness hook at labelled points of ModuleLoader.build, ModuleLoader._load, TemplateLoader.load, BaseTemplate.cook and BaseTemplateFile.cook_check; with the guard off _verif_point is an empty function',
         'baseline_off_cmd': 'cd /repo && /venv/bin/python -m pytest -ra -q -p no:cacheprovider --timeout=900 --continue-on-collection-errors',
-        'source_commits': ['10c9172c3d3f7aca3cec04683413f4c74f565a12', '2534e418805e93b963a8d12ed0ee8d985fdeb7a5'],
+        'source_commits': ['10c9172c3d3f7aca3cec04683413f4c74f565a12', '2534e418805e93b963a8d12ed0ee8d985fdeb7a5', '16c94caee67fded347a36d996b45ee8adec538ca'],
         'add_only': True,
     },
     'engines': [
